@@ -26,6 +26,7 @@ RULE = (
     "magnitudes. The comparison figure's Days column is 0..n-1, 1..n, weekly, a calendar with gaps or fractional (it is the "
     "time axis when no filtering is requested); production tables may carry a water column with gaps and a comment column; "
     "the plotting helpers are given plot_kwargs None / {} / transparency / line style. Distinct = hash of the case record."
+    " One reservoir case in forty stores 2001..2600 time levels on a 3..5 node grid and is drawn with every = 1..3."
 )
 ASSUMPTIONS = [
     "recovery rate 'is the time derivative of recovery' when every plotted value lies between the left and right difference quotients of the plotted recovery at that time (one-sided quotient at the ends), so any consistent derivative estimate passes",
@@ -46,6 +47,14 @@ def strategy_(draw):
         # half of the table-based reservoirs are simulated with a frac-face schedule (constant, falling or arbitrary:
         # with a rising frac-face pressure the profile's minimum is not at the fracture any more)
         c = draw(flowcase.sim_case(nx_max=40, max_steps=120, schedules=draw(st.booleans()), with_library=False, time_kinds=("uniform", "quadratic", "geometric", "random")))
+        if draw(st.integers(0, 39)) == 0:
+            # a long run (thousands of stored profiles) on a tiny grid, drawn with every = 1..3: "every k-th profile"
+            # has no upper limit on the number of profiles
+            nt = draw(st.integers(2001, 2600))
+            c["time"] = {"kind": "quadratic", "n": nt, "T": draw(st.floats(0.5, 5.0)), "start": 0.0}
+            c["nx"] = draw(st.integers(3, 5))
+            c["schedule"] = {"kind": "none"}
+            c["long_every"] = draw(st.sampled_from([1, 2, 3]))
         c.update({"kind": kind, "every_frac": draw(st.floats(0.0, 1.1)), "rescale": draw(st.booleans()), "change_ticks": draw(st.booleans()), "own_axes": draw(st.booleans()), "plot_kwargs": draw(st.sampled_from(["none", "none", "empty", "color", "style"])), "pre_state": draw(st.sampled_from(["fresh", "fresh", "after-density-recovery", "after-interpolator"]))})
         return c
     if kind == "transform":
@@ -179,6 +188,9 @@ def check_case(case) -> Result:
             m, t = r.m, r.time
             nt, nx = m.shape
             every = max(1, int(round(case["every_frac"] * (nt + 5))))
+            if case.get("long_every"):
+                every = int(case["long_every"])
+            res.labels["stored_profiles"] = "<=2000" if nt <= 2000 else ">2000"
             res.labels["cls"] = case["cls"]
             ax_in = plt.subplots()[1] if case["own_axes"] else None
             # line styling handed through to Axes.plot (None, an empty dict, transparency, a line / marker style - not colour or label, which the helpers set themselves): the data
